@@ -210,15 +210,14 @@ def run_averager(cfg, program, strategy, seed=0, tid=1):
                         else:
                             # get()/pop() return total/count; to compare exactly the pair is re-derived: mean * count is not
                             # unique, so the raw pair is fetched the same way the recipe does (cache.get / cache.pop)
-                            if op[0] == 'get':
-                                tot, cnt = cache.get(KEY, default=(0.0, 0), retry=True)
-                                mean = ave.get()
+                            # the recipe's own get() / pop(): the mean, as an exact fraction (values are small integers)
+                            from fractions import Fraction
+                            mean = ave.get() if op[0] == 'get' else ave.pop()
+                            if mean is None:
+                                sch.emit({'ev': 'ret', 'c': cid, 'ret': R('none')})
                             else:
-                                tot, cnt = cache.pop(KEY, default=(0.0, 0), retry=True)
-                                mean = None if cnt == 0 else tot / cnt
-                            ok = (mean is None and cnt == 0) or (cnt and mean == tot / cnt) or op[0] == 'get'
-                            sch.emit({'ev': 'ret', 'c': cid,
-                                      'ret': R('none') if cnt == 0 else R('pair', [int(tot), cnt])})
+                                fr = Fraction(mean).limit_denominator(10000)
+                                sch.emit({'ev': 'ret', 'c': cid, 'ret': R('mean', [fr.numerator, fr.denominator])})
                     except sched.Stop:
                         raise
                     except Exception as exc:
